@@ -4,14 +4,14 @@ CONSTANTS
   Val = {v1, v2}
   Stranger = {}
   Sig = {s1}
-  GraceSet = {2, 4}
+  GraceSet = {2, 3}
   CoolSet = {1}
   DiscSet = {1}
   UpdSet = {100}
   QuorumSet = {50}
   PenaltySet = {1}
   DtSet = {0, 1, 2, 3, 4}
-  IntervalSet = {2, 4}
+  IntervalSet = {2, 3}
   PowerSet = {1}
   PriceSet = {1}
   StatusSet = {"avail"}
